@@ -35,6 +35,11 @@ V28 = [(m, s) for m in M7 for s in S4]
 X41 = [0.0] + [sg * v for v in (2.0 ** -30, .25, .5, 1, 1.5, 2, 3, 4, 5, 5.5, 6, 6.5, 7, 7.5, 8, 8.12, 8.13, 8.3, 9, 12)
                for sg in (1, -1)]
 SHAPES_S2 = [(1, 1), (1, 2), (2, 1), (2, 2), (1, 3), (3, 1)]
+# far field of the standardised gap, for the classes whose update goes through exp(): 2^53 ~ e^36.7 is where a sum "big + small" absorbs
+# the small term (any rewrite of a normaliser as "total minus the rest" cancels there) and the quotient forms lose their last digits from
+# ~ 20 c on; only shapes whose team totals can be that far apart inside |mu| <= 20 beta take part
+XFAR = [sg * v for v in (16.0, 20.0, 24.0, 28.0, 33.0, 36.0, 37.5, 45.0) for sg in (1, -1)]
+SHAPES_S2F = [(1, 1), (2, 2), (1, 3), (3, 1), (3, 3)]
 
 
 # --------------------------------------------------------------------------- outcomes
@@ -194,15 +199,15 @@ def c_pair(kind, cfg, na, sa, nb, sb):
     return 2 * c if kind == "TMP" else c
 
 
-def games_S2(kind, cfg, sig=None):
+def games_S2(kind, cfg, sig=None, gaps=None, shapes_=None):
     """2 homogeneous teams at every standardised gap of X41.  Yields absolute-unit games."""
     b = cfg.beta
     sig = sig or S4
-    for (na, nb) in SHAPES_S2:
+    for (na, nb) in (shapes_ or SHAPES_S2):
         for sa in sig:
             for sb in sig:
                 c = c_pair(kind, cfg, na, sa, nb, sb)
-                for x in X41:
+                for x in (gaps or X41):
                     gap = x * c
                     mid = 6 * b * (na + nb) / 2  # both team totals sit symmetrically around this common mean
                     ma = (mid + gap / 2) / na
@@ -293,6 +298,8 @@ def value_games(space, kind, cfg):
         return (g for sh in shapes(2, 2) for g in games_product(sh, V4 + [(6, 0.0)], cfg))
     if space == "S2":
         return games_S2(kind, cfg)
+    if space == "S2F":
+        return games_S2(kind, cfg, gaps=XFAR, shapes_=SHAPES_S2F)
     if space == "P2":
         return games_P2(cfg)
     if space == "P3":
